@@ -43,6 +43,8 @@ def run(ck, rng):
     n = 700 if ck.tier == "quick" else 20000
     docs = malformed_stream(rng, n)
     docs += long_line_docs()
+    # nodes with 15..257 children (sizes at which lookup structures change), with repeated names
+    docs += [spell(items, plain_spelling(items)) for items in very_wide_forests()]
     cases, meta = [], []
     for doc in docs:
         ops = OPS if (ck.tier == "thorough" or len(doc) > 60000 or rng.random() < 0.15) else rng.sample(OPS, 4)
